@@ -22,7 +22,7 @@ EXTENDS Naturals, Integers, Sequences, FiniteSets
 (* base: the destination as it was before the save - or as another process created it meanwhile   *)
 (* (environment event "env_dest_appears", only generated with overwrite = FALSE)                   *)
 PInit(init) == [written |-> 0, dirty |-> FALSE, synced |-> 0, published |-> FALSE, base |-> init.dest,
-                faults_after_publish |-> FALSE, cleanup_unlink_faulted |-> FALSE]
+                faults_after_publish |-> FALSE, cleanup_unlink_faulted |-> FALSE, os_error |-> FALSE]
 
 Publishing == {"rename", "replace", "link"}
 
@@ -39,6 +39,8 @@ EventWhy(cfg, init, total, ps, prev, ev) ==
           ~(ev.name \in Publishing /\ ~ev.faulted) THEN "published-by-non-atomic-step"
   ELSE IF ~ps.published /\ ev.dest.st = "new" /\ ~(ps.written = total /\ ~ps.dirty /\ ps.synced = total /\ prev.part.size = total)
        THEN "published-before-written-flushed-synced"
+  (* overwrite = FALSE: a destination that exists - at entry, or created by someone else meanwhile - is never replaced *)
+  ELSE IF ~cfg.overwrite /\ ps.base.st # "absent" /\ ~ps.published /\ ev.dest.st = "new" THEN "existing-destination-replaced-despite-overwrite-false"
   (* a pre-existing part file is never reused or overwritten unless overwrite_part *)
   ELSE IF init.part.st = "stale" /\ ~cfg.overwrite_part /\ ev.part.st # "stale" THEN "stale-part-touched"
   ELSE ""
@@ -54,7 +56,8 @@ PStep(ps, prev, ev) ==
      !.published = @ \/ ev.dest.st = "new",
      !.base = IF ev.name = "env_dest_appears" THEN ev.dest ELSE @,
      !.faults_after_publish = @ \/ (ev.faulted /\ ps.published),
-     !.cleanup_unlink_faulted = @ \/ (ev.faulted /\ ev.name \in {"unlink", "remove"})]
+     !.cleanup_unlink_faulted = @ \/ (ev.faulted /\ ev.name \in {"unlink", "remove"}),
+     !.os_error = @ \/ ev.faulted]
 
 (* ---------- judgement of the whole attempt ---------- *)
 ExpectedMode(cfg, init) == IF cfg.perms # 0 THEN cfg.perms
@@ -65,6 +68,8 @@ FinalWhy(cfg, init, total, ps, last, raised, body_raised) ==
   IF ~raised THEN
      (* a with-block that exits normally leaves the complete new content and no part file *)
      IF body_raised THEN "exception-swallowed"
+     (* the operating system reported an error at some step: the caller must hear about it *)
+     ELSE IF ps.os_error THEN "os-error-not-reported"
      ELSE IF last.dest.st # "new" THEN "normal-exit-without-new-content"
      ELSE IF last.part.st # "absent" THEN "part-left-after-success"
      ELSE IF last.dest.mode # ExpectedMode(cfg, init) THEN "wrong-permissions"
